@@ -328,6 +328,7 @@ func (s *sink) Write(p []byte) (int, error) { s.b = append(s.b, p...); return le
 func callRender(tg renderTarget, entry string) (status, text string) {
 	defer func() {
 		if r := recover(); r != nil {
+			mustBeLibrary(r, "render")
 			status, text = "panic", fmt.Sprint(r)
 		}
 	}()
@@ -577,6 +578,13 @@ func (w *world) coreTableOf(op M, tg renderTarget) tabular.Table {
 
 func (w *world) repeatCheck(op M, tg renderTarget, status, text string) M {
 	key := fmt.Sprintf("%d|%s", w.version, tg.kind)
+	if tbl := w.coreTableOf(op, tg); tbl != nil {
+		for i, t := range w.atables {
+			if t == tbl {
+				key += fmt.Sprintf("|t%d", i+1)
+			}
+		}
+	}
 	src := tg.probe
 	if tg.wr != nil {
 		src = tg.wr.rt
